@@ -71,7 +71,7 @@ fn base_strategy(tier: Tier) -> impl Strategy<Value = Case> {
         Tier::Quick => prop_oneof![Just(1usize), Just(2), Just(3), Just(5), Just(8), Just(16)].boxed(),
         Tier::Thorough => (1usize..=16).boxed(),
     };
-    (ncpu, 0usize..16, (any::<bool>(), prop_oneof![1 => Just(1u64), 3 => Just(2u64), 1 => Just(3u64), 1 => Just(4u64)]), 1u64..=40, 0u32..4, 0usize..WEIGHTS.len(), 1usize..=3, any::<u64>()).prop_map(|(ncpu, cpu_offset, (bch, bch_t), max_err, delay_mode, w, points, seed)| Case { ncpu, cpu_offset, bch, bch_t, max_err, delay_mode, weights: WEIGHTS[w], points, seed, inject: Inject::None, no_reporter: seed % 5 == 0, chain: if seed % 3 == 0 { ((seed / 3) % 4) as u8 } else { 0 } })
+    (ncpu, 0usize..16, (any::<bool>(), prop_oneof![1 => Just(1u64), 3 => Just(2u64), 1 => Just(3u64), 1 => Just(4u64)]), prop_oneof![1 => Just(0u64), 24 => 1u64..=40], 0u32..4, 0usize..WEIGHTS.len(), 1usize..=3, any::<u64>()).prop_map(|(ncpu, cpu_offset, (bch, bch_t), max_err, delay_mode, w, points, seed)| Case { ncpu, cpu_offset, bch, bch_t, max_err, delay_mode, weights: WEIGHTS[w], points, seed, inject: Inject::None, no_reporter: seed % 5 == 0, chain: if seed % 3 == 0 { ((seed / 3) % 4) as u8 } else { 0 } })
 }
 
 fn strategy(tier: Tier) -> BoxedStrategy<Case> {
@@ -98,6 +98,8 @@ fn inject_strategy(tier: Tier) -> BoxedStrategy<Case> {
     )
         .prop_map(|(mut c, inject)| {
             c.inject = inject;
+            // a target of zero frame errors needs no frame at all: nothing to fail on
+            c.max_err = c.max_err.max(1);
             c
         })
         .boxed()
@@ -564,6 +566,9 @@ fn run_case(c: &Case) -> serde_json::Value {
     if workers >= 2 {
         classes.push("workers>=2");
     }
+    if c.max_err == 0 {
+        classes.push("zero-frame-error-target");
+    }
     // single worker: the counted set is exactly the script prefix
     if workers == 1 {
         classes.push("single-worker-replay");
@@ -600,7 +605,7 @@ pub fn property() -> Property {
         subs: vec![
             Box::new(Sub {
                 name: "statistics",
-                rule: "each case in a child process pinned (sched_setaffinity) to 1..16 CPUs, so that the engine starts that many workers; BPSK, 40 dB, no puncturing (a third of the cases: parity blocks punctured with an interleaver of 4 or -8 columns, or 8PSK with puncturing, block sizes that fit the transmitted but not the codeword length): the hard decision of the LLRs of the systematic part is the message; a scripted decoder (per decoder instance and frame: type and delay from a hash of the case seed; delays none / yield / 0-200 us sleeps / stalled even workers) returns it with e_t systematic bits flipped (parity bits too in some types), verdict v_t and iteration count B^t (B = 1024) for six frame types (0, 0, 1, T = exactly the outer-code threshold, T+1 with a success verdict = false decode, k bit errors; T drawn from 1..=4), so total_iterations decodes uniquely into counted frames per type and every reported number is predicted exactly (frames, frame errors, false decodes, systematic bit errors, correct-frame iterations, outer-code accounting with threshold T, BER/FER/averages as ratios, stop exactly at max_frame_errors in 1..=40, counted <= produced per type); report stream: same identities, frame counts non-decreasing per point, last report = returned entry, 'finished' exactly once and last; all decoders built are dropped when run() returns; with one worker the counted set is exactly the script prefix; 1-3 Eb/N0 points, with/without outer-code threshold; one case in five runs without a reporter (return value only); non-trivial = >= 2 workers and >= 3 frame types counted; inner = frames decoded",
+                rule: "each case in a child process pinned (sched_setaffinity) to 1..16 CPUs, so that the engine starts that many workers; BPSK, 40 dB, no puncturing (a third of the cases: parity blocks punctured with an interleaver of 4 or -8 columns, or 8PSK with puncturing, block sizes that fit the transmitted but not the codeword length): the hard decision of the LLRs of the systematic part is the message; a scripted decoder (per decoder instance and frame: type and delay from a hash of the case seed; delays none / yield / 0-200 us sleeps / stalled even workers) returns it with e_t systematic bits flipped (parity bits too in some types), verdict v_t and iteration count B^t (B = 1024) for six frame types (0, 0, 1, T = exactly the outer-code threshold, T+1 with a success verdict = false decode, k bit errors; T drawn from 1..=4), so total_iterations decodes uniquely into counted frames per type and every reported number is predicted exactly (frames, frame errors, false decodes, systematic bit errors, correct-frame iterations, outer-code accounting with threshold T, BER/FER/averages as ratios, stop exactly at max_frame_errors in 1..=40 (one case in 25: a target of 0, which every point meets before its first frame), counted <= produced per type); report stream: same identities, frame counts non-decreasing per point, last report = returned entry, 'finished' exactly once and last; all decoders built are dropped when run() returns; with one worker the counted set is exactly the script prefix; 1-3 Eb/N0 points, with/without outer-code threshold; one case in five runs without a reporter (return value only); non-trivial = >= 2 workers and >= 3 frame types counted; inner = frames decoded",
                 cases: |t| t.pick(6_000, 150_000),
                 strategy,
                 check,
